@@ -281,7 +281,9 @@ func cliCases(tier string) []CLICase {
 		for _, via := range []string{"flag", "env"} {
 			for _, dev := range []bool{false, true} {
 				for _, src := range []string{"hcl", "db"} {
-					if tier != "thorough" && len(ps) == 2 && (via == "env" || src == "db") {
+					// quick: pattern pairs through flags with an HCL source, and through the env block
+					// (a list attribute, another code path) without a dev database.
+					if tier != "thorough" && len(ps) == 2 && (src == "db" || via == "env" && dev) {
 						continue
 					}
 					cs = append(cs, CLICase{Patterns: ps, Via: via, Dev: dev, Source: src})
